@@ -587,6 +587,7 @@ fn run_with_paced_stdin(ctx: &Ctx, bytes: &[u8], first: usize, dir: &std::path::
         stdout: out.stdout,
         stderr: out.stderr,
         timed_out: false,
+        elapsed_ms: 0,
     })
 }
 
